@@ -23,7 +23,8 @@ pkg = m[-1]; runpat = run[-1] if run else "."
 wt = tempfile.mkdtemp(prefix=f"confirm-{ID}-{k}-", dir="/tmp")
 os.rmdir(wt)
 try:
-    rc, out = sh(f"git -C /repo worktree add -q --detach {wt} HEAD", "/")
+    rev = os.environ.get("SEED_REV", "HEAD")
+    rc, out = sh(f"git -C /repo worktree add -q --detach {wt} {rev}", "/")
     assert rc == 0, out
     for t in tests: shutil.copy(t, f"{wt}/{pkg}/")
     demo = f"go test -vet=off -count=1 -tags unit -run '{runpat}' ./{pkg}/"
@@ -57,7 +58,7 @@ try:
         dst = f"/verif/seeded/{ID}-{k}"
         os.makedirs(dst, exist_ok=True)
         for f in os.listdir(src): shutil.copy(f"{src}/{f}", dst)
-        meta["confirmed_by_main"] = {"worktree_of": subprocess.run("git -C /repo rev-parse --short HEAD", shell=True, capture_output=True, text=True).stdout.strip(),
+        meta["confirmed_by_main"] = {"worktree_of": subprocess.run("git -C /repo rev-parse --short " + os.environ.get("SEED_REV", "HEAD"), shell=True, capture_output=True, text=True).stdout.strip(),
             "demo_cmd": demo, "demo_clean": "pass", "demo_patched": "fail", "suite": suite}
         json.dump(meta, open(f"{dst}/meta.json", "w"), indent=1)
 finally:
